@@ -794,7 +794,7 @@ Definition bad_row (g : geom) (ops : list op) (y : Z) (p : prov) : Prop :=
 Lemma witness_geom_ok M v H merged :
   (1 <=? M) && (1 <=? v) && (0 <=? H) && (H <? 4294967296) && (negb merged || (v =? 1) || (v =? 2)) = true ->
   geom_ok (wg M v H merged).
-Proof. unfold geom_ok, wg. cbn. intros. splits; try lia. intros ->. cbn in *. lia. Qed.
+Proof. unfold geom_ok, wg. cbn [gM gv gH gmerged]. intros Hb. splits; lia. Qed.
 
 (* hazard 1: two skips in a row, the first one ends inside an iMCU row without reading a line of it *)
 Lemma refuted_skip_after_skip :
